@@ -190,16 +190,21 @@ Theorem C18_lz4_fits : forall rawenc rawdec data, size data <= K.maxFrameSize ->
 Proof. exact lz4_fits_lemma. Qed.
 Print Assumptions C18_lz4_fits.
 
-(* lz4, interoperation with Cassandra's framing in both directions. *)
+(* lz4, interoperation with Cassandra's framing in both directions; and Decode IS Cassandra's decoder (the
+   block decoder is asked for the declared number of bytes and must deliver exactly that many) whenever the
+   prefix is not zero. *)
 Theorem C18_lz4_cassandra_interop : forall rawenc rawdec exact data, size data < 2 ^ 32 ->
   (forall z blk, lz4_encode rawenc data = Some z -> rawenc data = Some blk ->
      cass_lz4_decompress exact z = exact blk (size data))
   /\ (forall blk, lz4_decode rawdec (cass_lz4_compress blk data)
-                  = if size data =? 0 then Some [] else rawdec blk (size data)).
+                  = if size data =? 0 then Some [] else lz4_checked rawdec blk (size data))
+  /\ (forall z, (4 <= length z)%nat -> be (firstn 4 z) <> 0 ->
+         lz4_decode rawdec z = cass_lz4_decompress (lz4_checked rawdec) z).
 Proof.
-  intros rawenc rawdec exact data Hsz. split.
+  intros rawenc rawdec exact data Hsz. split; [|split].
   - intros z blk Hz Hb. exact (cass_reads_gocql_lemma rawenc exact data z blk Hsz Hz Hb).
   - intros blk. exact (gocql_reads_cass_lemma rawdec blk data Hsz).
+  - intros z. exact (lz4_decode_is_cassandra_lemma rawdec z).
 Qed.
 Print Assumptions C18_lz4_cassandra_interop.
 
@@ -209,13 +214,12 @@ Theorem C18_lz4_dst_bound : forall n, 0 <= n -> lz4_bound (n + 4) - 4 >= lz4_bou
 Proof. exact lz4_dst_bound_lemma. Qed.
 Print Assumptions C18_lz4_dst_bound.
 
-(* lz4, corrupt bodies: an accepted body has the length its prefix declares - PROVIDED the block decoder
-   returns exactly as many bytes as it was asked for.  Decode itself does not check this, and the real
-   UncompressBlock returns fewer bytes when the block is shorter: the statement without the premise is
-   refuted (Refuted.lz4_declared_length_refuted; known finding lz4-length-prefix-unchecked). *)
-Theorem C18_lz4_declared_length : forall rawdec,
-  (forall src n out, rawdec src n = Some out -> size out = n) ->
-  forall data out, lz4_decode rawdec data = Some out -> be (firstn 4 data) = size out.
+(* lz4, corrupt bodies: an accepted body has exactly the length its prefix declares, whatever the block
+   decoder does - Decode checks it.  (Before the fix lz4-length-prefix-unchecked this needed the premise that
+   the block decoder returns exactly as many bytes as asked; Refuted.v keeps the pre-fix function and the
+   witness as a regression fact.) *)
+Theorem C18_lz4_declared_length : forall rawdec data out,
+  lz4_decode rawdec data = Some out -> be (firstn 4 data) = size out.
 Proof. exact lz4_declared_length_lemma. Qed.
 Print Assumptions C18_lz4_declared_length.
 
